@@ -235,6 +235,12 @@ def run(tier, seed):
     samples = []
     crashed = []
     phases = [("default", binary, Refs(binary), n_runs)]
+    if tier == "quick":
+        # node types that only the raw-AST path generates (RepeatMinMax, RepOnce) get a quarter of the quick budget
+        from . import c20
+        vbins, vfailed = c20.build_variants(["noopt"])
+        if not vfailed:
+            phases.append(("noopt", vbins["noopt"], Refs(vbins["noopt"]), n_runs // 4))
     if tier == "thorough":
         # the eq/hash/clone code of node types that only other option sets generate (RepeatMinMax and RepOnce nodes of
         # the raw-AST path, un-boxed rule structs) is reached by running the same history search on two more variants
